@@ -4,6 +4,7 @@ package main
 var pureFunSpecs = []pfSpec{
 	{pkg: "x/liquidity/amm", fn: "Deposit", coq: "gen_amm_Deposit"},
 	{pkg: "x/liquidity/amm", fn: "Withdraw", coq: "gen_amm_Withdraw"},
+	{pkg: "x/liquidity/amm", fn: "InitialPoolCoinSupply", coq: "gen_amm_InitialPoolCoinSupply"},
 	{pkg: "x/liquidity/amm", fn: "inv", coq: "gen_amm_inv"},
 	{pkg: "x/liquidity/amm", fn: "DeriveTranslation", coq: "gen_amm_DeriveTranslation"},
 	{pkg: "x/liquidity/amm", fn: "ValidateRangedPoolParams", coq: "gen_amm_ValidateRangedPoolParams"},
